@@ -71,16 +71,16 @@ Definition known_op (op : N) : bool := existsb (N.eqb op) [0; 1; 2; 8; 9; 10].
 Definition is_data_start (op : N) : bool := (op =? 1) || (op =? 2).
 
 (* violations that can be decided from the first two bytes *)
-Definition header_violations (c : scfg) (in_frag fin rsv1 rsv2 rsv3 masked : bool) (op len7 : N) : list vkind :=
-  (if rsv2 || rsv3 || (rsv1 && negb (s_compress c)) then [VRsv] else [])
-  ++ (if rsv1 && s_compress c && is_control op then [VRsv1Ctl] else [])
-  ++ (if rsv1 && s_compress c && (op =? 0) then [VRsv1Cont] else [])
+Definition header_violations (compress server in_frag fin rsv1 rsv2 rsv3 masked : bool) (op len7 : N) : list vkind :=
+  (if rsv2 || rsv3 || (rsv1 && negb compress) then [VRsv] else [])
+  ++ (if rsv1 && compress && is_control op then [VRsv1Ctl] else [])
+  ++ (if rsv1 && compress && (op =? 0) then [VRsv1Cont] else [])
   ++ (if negb (known_op op) then [VOpcode] else [])
   ++ (if is_control op && (125 <? len7) then [VCtlLen] else [])
   ++ (if is_control op && negb fin then [VCtlFrag] else [])
   ++ (if is_data_start op && in_frag then [VNestedData] else [])
   ++ (if (op =? 0) && negb in_frag then [VOrphanCont] else [])
-  ++ (if negb (Bool.eqb masked (s_server c)) then [VMask] else []).
+  ++ (if negb (Bool.eqb masked server) then [VMask] else []).
 
 Definition enforced (P : spolicy) (vs : list vkind) : list vkind := filter (fun k => negb (lax P k)) vs.
 
@@ -130,48 +130,57 @@ Definition complete (P : spolicy) (c : scfg) (inflate : bytes -> option bytes) (
 
 Definition unmask (c : scfg) (key p : bytes) : bytes := if s_server c then xor_mask key 0 p else p.
 
+(* payload length (5.2) *)
+Definition spec_len (P : spolicy) (len7 : N) (bs1 : bytes) (k : N -> bytes -> fres) : fres :=
+  if len7 =? 126 then
+    need 2 bs1 (fun q bs2 => check P (if be q <? 126 then [VNonMinimal] else []) (k (be q) bs2))
+  else if len7 =? 127 then
+    need 8 bs1 (fun q bs2 =>
+      if two63 <=? be q then (if lax P VLenMsb then FEnd [SEnd (OSilent VLenMsb)] else FEnd [SEnd (OViol VLenMsb)])
+      else check P (if be q <? 65536 then [VNonMinimal] else []) (k (be q) bs2))
+  else k len7 bs1.
+
+(* masking key (5.3) *)
+Definition spec_key (masked : bool) (bs2 : bytes) (k : bytes -> bytes -> fres) : fres :=
+  if masked then need 4 bs2 k else k [] bs2.
+
+(* control frames (5.5) *)
+Definition spec_control (P : spolicy) (c : scfg) (frag : option fragst) (op len : N) (key bs3 : bytes) : fres :=
+  need len bs3 (fun pl bs4 =>
+    let payload := unmask c key pl in
+    if op =? 9 then FCont [SPong payload] frag bs4
+    else if op =? 10 then FCont [] frag bs4
+    else close_frame P payload).
+
+(* data frames (5.4, 5.6): first fragment or continuation *)
+Definition spec_data (P : spolicy) (c : scfg) (inflate : bytes -> option bytes) (frag : option fragst)
+           (fin rsv1 : bool) (op len : N) (key bs3 : bytes) : fres :=
+  let '(typ, compressed, acc, total0) :=
+      match frag with
+      | Some f => f
+      | None => (op, rsv1 && s_compress c, [], 0)
+      end in
+  let total := total0 + len in
+  if two63 <=? total then (if lax P VMsgLen63 then FEnd [SEnd (OSilent VMsgLen63)] else FEnd [SEnd (OViol VMsgLen63)])
+  else if (0 <? s_limit c) && (s_limit c <? total) then FEnd [SEnd OTooBig]
+  else
+    need len bs3 (fun pl bs4 =>
+      let data := acc ++ unmask c key pl in
+      if fin then complete P c inflate typ compressed data bs4
+      else FCont [] (Some (typ, compressed, data, total)) bs4).
+
 (* one frame *)
 Definition spec_frame (P : spolicy) (c : scfg) (inflate : bytes -> option bytes) (frag : option fragst) (bs : bytes) : fres :=
   need 2 bs (fun p bs1 =>
     match p with
     | b0 :: b1 :: _ =>
-        let fin := b_fin b0 in let op := b_opcode b0 in let masked := b_masked b1 in let len7 := b_len7 b1 in
         let in_frag := match frag with Some _ => true | None => false end in
-        check P (header_violations c in_frag fin (b_rsv1 b0) (b_rsv2 b0) (b_rsv3 b0) masked op len7)
-          (* payload length (5.2) *)
-          (let with_len (k : N -> bytes -> fres) : fres :=
-               if len7 =? 126 then
-                 need 2 bs1 (fun q bs2 => check P (if be q <? 126 then [VNonMinimal] else []) (k (be q) bs2))
-               else if len7 =? 127 then
-                 need 8 bs1 (fun q bs2 =>
-                   if two63 <=? be q then (if lax P VLenMsb then FEnd [SEnd (OSilent VLenMsb)] else FEnd [SEnd (OViol VLenMsb)])
-                   else check P (if be q <? 65536 then [VNonMinimal] else []) (k (be q) bs2))
-               else k len7 bs1 in
-           with_len (fun len bs2 =>
-             let with_key (k : bytes -> bytes -> fres) : fres :=
-                 if masked then need 4 bs2 k else k [] bs2 in
-             with_key (fun key bs3 =>
-               if is_control op then
-                 need len bs3 (fun pl bs4 =>
-                   let payload := unmask c key pl in
-                   if op =? 9 then FCont [SPong payload] frag bs4
-                   else if op =? 10 then FCont [] frag bs4
-                   else close_frame P payload)
-               else
-                 (* data frame: first fragment or continuation *)
-                 let '(typ, compressed, acc, total0) :=
-                     match frag with
-                     | Some f => f
-                     | None => (op, b_rsv1 b0 && s_compress c, [], 0)
-                     end in
-                 let total := total0 + len in
-                 if two63 <=? total then (if lax P VMsgLen63 then FEnd [SEnd (OSilent VMsgLen63)] else FEnd [SEnd (OViol VMsgLen63)])
-                 else if (0 <? s_limit c) && (s_limit c <? total) then FEnd [SEnd OTooBig]
-                 else
-                   need len bs3 (fun pl bs4 =>
-                     let data := acc ++ unmask c key pl in
-                     if fin then complete P c inflate typ compressed data bs4
-                     else FCont [] (Some (typ, compressed, data, total)) bs4))))
+        check P (header_violations (s_compress c) (s_server c) in_frag (b_fin b0) (b_rsv1 b0) (b_rsv2 b0) (b_rsv3 b0)
+                                   (b_masked b1) (b_opcode b0) (b_len7 b1))
+          (spec_len P (b_len7 b1) bs1 (fun len bs2 =>
+             spec_key (b_masked b1) bs2 (fun key bs3 =>
+               if is_control (b_opcode b0) then spec_control P c frag (b_opcode b0) len key bs3
+               else spec_data P c inflate frag (b_fin b0) (b_rsv1 b0) (b_opcode b0) len key bs3)))
     | _ => FEnd [SEnd OEof]
     end).
 
@@ -190,7 +199,7 @@ Definition spec_read (P : spolicy) (c : scfg) (inflate : bytes -> option bytes) 
   spec_loop (S (length bs)) P c inflate None bs.
 
 (* ---- what a conforming endpoint shows for a decoded stream *)
-Definition close_echo (code : N) : bytes := if code =? 1005 then [] else [code / 256; code mod 256].
+Definition close_echo (code : N) : bytes := if code =? 1005 then [] else [(code / 256) mod 256; code mod 256].
 
 Definition expected_one (e : sevent) : list event :=
   match e with
@@ -210,8 +219,8 @@ Definition expected (es : list sevent) : list event := flat_map expected_one es.
 (* the free text of 1002 / 1009 close frames is not part of the property *)
 Definition norm_event (e : event) : event :=
   match e with
-  | Wrote 8 (3 :: 234 :: _ :: _) => Wrote 8 [3; 234]
-  | Wrote 8 (3 :: 241 :: _ :: _) => Wrote 8 [3; 241]
+  | Wrote op (a :: b :: _ :: _) =>
+      if (op =? 8) && (a =? 3) && ((b =? 234) || (b =? 241)) then Wrote 8 [3; b] else e
   | _ => e
   end.
 
